@@ -45,6 +45,7 @@ type File struct {
 	Base     string // file name without .thrift; also the include name
 	Includes []int  // indexes of included files, in textual order
 	Defs     []*Def // textual order
+	Deleted  bool   // removed by an edit script
 }
 
 func (f *File) RelPath() string {
@@ -607,7 +608,7 @@ func (p *Program) RootOf(t *TypeRef) *TypeRef {
 
 // Lookup finds the definition a Ref designates.
 func (p *Program) Lookup(r *Ref) *Def {
-	if r == nil || r.File < 0 || r.File >= len(p.Files) {
+	if r == nil || r.File < 0 || r.File >= len(p.Files) || p.Files[r.File].Deleted {
 		return nil
 	}
 	for _, d := range p.Files[r.File].Defs {
